@@ -487,7 +487,11 @@ pub fn fam_conc(tier: Tier) -> Vec<Config> {
             for retry in [false, true] {
                 for (split, sync) in [(false, false), (true, false), (false, true)] {
                     let mut cfg = base(String::new());
-                    let scs: Vec<ScenSpec> = (0..nsc).map(|_| scen(&[], &[M])).collect();
+                    // (every other scenario carries a tag that merely starts with `serial`: an
+                    // ordinary tag, the scenario is as concurrent as its neighbours)
+                    let scs: Vec<ScenSpec> = (0..nsc)
+                        .map(|i| if i % 2 == 1 { scen(&[["serialization", "serial_port"][i / 2 % 2]], &[M]) } else { scen(&[], &[M]) })
+                        .collect();
                     if split && nsc >= 2 {
                         let (a, bb) = scs.split_at(nsc / 2);
                         cfg.feats = vec![feat(a.to_vec()), feat(bb.to_vec())];
@@ -960,6 +964,28 @@ pub fn fam_retry(tier: Tier) -> Vec<Config> {
         cfg.max_execs = 20;
         let _ = selected;
         cfg.name = format!("retry/filter-levels|{expr}|f{ftag}|r{rtag}|s{stag}");
+        out.push(cfg);
+    }
+    // delays at the small end: below a millisecond (from a tag, the CLI and the builder) and
+    // exactly one millisecond; a retry waits for them like for any other delay
+    for (src, dur) in [("tag", 900u64), ("cli", 900), ("builder", 1), ("tag", 1000), ("cli", 1000)] {
+        let mut cfg = base(format!("retry/tiny-delay|{src}|{dur}us"));
+        let d = Duration::from_micros(dur);
+        let tags: Vec<String> = if src == "tag" { vec![format!("retry(1).after({dur}us)")] } else { vec![] };
+        cfg.feats = vec![feat(vec![ScenSpec { tags, steps: vec![M] }, scen(&[], &[M])])];
+        cfg.items = vec![Item::Feat(0)];
+        match src {
+            "cli" => cfg.retry_after_cli = Some(d),
+            "builder" => cfg.retry_after_builder = Some(d),
+            _ => {}
+        }
+        cfg.conc_builder = Some(Some(2));
+        cfg.plan.gates = GateMode::Steps;
+        let key = cfg.scen_infos()[0].calls[0].key.clone();
+        cfg.plan.outcomes.insert(key, vec![Outcome::PanicString, Outcome::Pass]);
+        cfg.clock_budget = 2;
+        cfg.clock_step = Duration::from_micros(600);
+        cfg.max_execs = 500;
         out.push(cfg);
     }
     // an explicit budget of 0 on the builder (a configured value, not "unset"), with every
@@ -1905,6 +1931,23 @@ pub fn fam_big(tier: Tier) -> Vec<Config> {
                 }
             }
         }
+    }
+    // the largest limits there are (`usize::MAX`, `isize::MAX`), from the builder and the CLI
+    for (b, c) in [
+        (Some(Some(usize::MAX)), None),
+        (Some(Some(isize::MAX as usize)), None),
+        (Some(Some(1)), Some(usize::MAX)),
+        (None, Some(usize::MAX - 1)),
+    ] {
+        let mut cfg = base(format!("big/max-limit|b{b:?}|c{c:?}"));
+        cfg.feats = vec![feat((0..3).map(|_| scen(&[], &[M])).collect()), feat(vec![scen(&["serial"], &[M])])];
+        cfg.items = vec![Item::Feat(0), Item::Feat(1)];
+        cfg.conc_builder = b;
+        cfg.conc_cli = c;
+        cfg.plan.gates = GateMode::Steps;
+        cfg.bound = Some(1);
+        cfg.max_execs = 200;
+        out.push(cfg);
     }
     // default limit 64 / unlimited / a limit of 65 observed with 70 ready scenarios
     for (b, c) in [(None, None), (Some(None), None), (Some(Some(65)), None), (Some(Some(3)), Some(64))] {
